@@ -8,4 +8,5 @@ if ls spec/lib/*.java >/dev/null 2>&1; then
   javac -cp /opt/veriftools/tla/tla2tools.jar -d spec/lib/classes spec/lib/*.java
 fi
 /venv/bin/python -m harness.sany
+/venv/bin/python -m harness.numself
 echo "setup ok"
